@@ -145,4 +145,13 @@ theorem asm_refines_stuck {tb : List (Nat × BTR)} {manual : List ManualEdge} {f
     ((∀ z, ¬ FStep f (Ψ y) z) → ∀ y', RStep tb manual y y' → Ψ y' = Ψ y) :=
   C06Asm.asm_refines_stuck hfwd hbwd hv
 
+open Falcon.CfgEdit Falcon.Assemble in
+/-- what `SingleCoherent` (checked per case as `continuation`) means for the transfers of the reference machine -/
+theorem asm_single {tb : List (Nat × BTR)} {single : Nat → Option (List Function × List (Nat × Option Expr))}
+    (hs : SingleCoherent tb single) {pc : Nat} {gs : List Function} {succs : List (Nat × Option Expr)}
+    (hu : single pc = some (gs, succs)) (a b : Nat) (c : Option Expr) :
+    ((∃ g, gs.getLast? = some g ∧ g.addr = a) → ((a, b, c) ∈ reqList tb [] ↔ (b, c) ∈ succs)) ∧
+    (∀ q ∈ pairs (gs.map (·.addr)), q.1 = a → ((a, b, c) ∈ reqList tb [] ↔ (b = q.2 ∧ c = none))) :=
+  C06Asm.rstep_next_single hs hu a b c
+
 end Falcon.C06
